@@ -202,6 +202,10 @@ pub fn adjust(cfg: &mut SwarmCfg, tier: &str, r: &mut Prng) {
             setw(cfg, "write", *r.pick(&[0u32, 2, 8, 20]));
             setw(cfg, "late_seq", 6);
             if r.chance(1, 3) {
+                // a member that comes back on a new device keeps its signature key
+                cfg.knobs.push(("same-signer-rejoin".into(), 1));
+            }
+            if r.chance(1, 3) {
                 cfg.scenario = "two-groups".into();
                 cfg.knobs.push(("groups".into(), 2));
             }
